@@ -31,3 +31,27 @@ pub fn any_endian() -> scroll::Endian {
 pub fn stub_format(_args: std::fmt::Arguments<'_>) -> String {
     String::new()
 }
+
+/// Stub for `core::str::from_utf8`: the real validator does word-at-a-time reads behind
+/// `align_offset`, which CBMC cannot fold.  Any outcome is allowed (over-approximation);
+/// UTF-8 validity itself is never the subject of a claimed property.
+#[cfg(kani)]
+pub fn stub_from_utf8(v: &[u8]) -> Result<&str, std::str::Utf8Error> {
+    if kani::any() {
+        Ok(unsafe { std::str::from_utf8_unchecked(v) })
+    } else {
+        // all-zero bits are a valid Utf8Error { valid_up_to: 0, error_len: None }
+        Err(unsafe { std::mem::zeroed() })
+    }
+}
+
+/// Stub for `encoding_rs::Encoding::decode_without_bom_handling_and_without_replacement`:
+/// any outcome (malformed => None, else some string); the decoder's tables are out of scope.
+#[cfg(kani)]
+pub fn stub_utf16_decode<'a>(_e: &'static encoding_rs::Encoding, _bytes: &'a [u8]) -> Option<std::borrow::Cow<'a, str>> {
+    if kani::any() {
+        Some(std::borrow::Cow::Owned(String::new()))
+    } else {
+        None
+    }
+}
